@@ -4,6 +4,7 @@ import (
 	"encoding/json"
 	"fmt"
 	"sort"
+	"strings"
 	"testing"
 
 	"pgregory.net/rapid"
@@ -130,11 +131,10 @@ func c05Gen(t *rapid.T) (*c05Case, string) {
 		nblk = rapid.IntRange(1, 3).Draw(t, "nblk")
 	}
 	wantClassSets := classSets
+	usedHash := map[string]bool{}
 	for bi := 0; bi < nblk; bi++ {
-		b := c05Block{
-			Hash: fmt.Sprintf("%016x%015x%x", rapid.Uint64().Draw(t, "hashHi"), rapid.Uint64Range(0, 1<<60-1).Draw(t, "hashLo"), bi),
-			Size: rapid.IntRange(0, 64).Draw(t, "size"),
-		}
+		b := c05Block{}
+		b.Hash, b.Size = c05GenBlkid(t, bi, usedHash)
 		nw := rapid.SampledFrom([]int{1, 1, 1, 2, 3, 0}).Draw(t, "nwants")
 		for i := 0; i < nw; i++ {
 			b.Wants = append(b.Wants, c05Want{
@@ -179,6 +179,135 @@ func c05Gen(t *rapid.T) (*c05Case, string) {
 		cs.Blocks = append(cs.Blocks, b)
 	}
 	return cs, mode
+}
+
+// ---------------------------------------------------------------- block ids (round 2)
+
+const c05EmptyHash = "d41d8cd98f00b204e9800998ecf8427e" // md5 of the empty string: the one real zero-size block
+
+// c05GenBlkid draws the block id (hash, size). Half of the ids are plain random;
+// the rest are the special regions of the SizedDigest domain: the well-known
+// empty block d41d8cd98f00b204e9800998ecf8427e+0, other hashes with size 0,
+// hashes that start / end with a run of 0 or f digits (or consist of one digit
+// only), and sizes 1, 2^26-1, 2^26, 2^26+k, 2^31 and beyond. Hashes are unique
+// within a case (the lost-block report and the ChangeSets name the bare hash).
+func c05GenBlkid(t *rapid.T, bi int, used map[string]bool) (string, int) {
+	random := fmt.Sprintf("%016x%015x%x", rapid.Uint64().Draw(t, "hashHi"), rapid.Uint64Range(0, 1<<60-1).Draw(t, "hashLo"), bi)
+	kind := rapid.SampledFrom([]string{
+		"random", "random", "random", "random", "random", "random", "random", "random",
+		"empty", "empty", "empty",
+		"lead0", "leadf", "trail0", "trailf", "all",
+	}).Draw(t, "hashKind")
+	hash := random
+	switch kind {
+	case "empty":
+		hash = c05EmptyHash
+	case "lead0", "leadf", "trail0", "trailf":
+		n := rapid.SampledFrom([]int{1, 2, 4, 8, 15, 16, 17, 24, 31}).Draw(t, "runLen")
+		d := "0"
+		if kind == "leadf" || kind == "trailf" {
+			d = "f"
+		}
+		run := strings.Repeat(d, n)
+		if kind == "lead0" || kind == "leadf" {
+			hash = run + random[n:]
+		} else {
+			// keep the distinguishing digit (bi) in front of the run
+			hash = random[:31-n] + random[31:] + run
+		}
+	case "all":
+		hash = strings.Repeat(rapid.SampledFrom([]string{"0", "f", "0", "f", "1", "8"}).Draw(t, "allDigit"), 32)
+	}
+	if used[hash] {
+		hash = random
+	}
+	if used[hash] {
+		t.Skip("duplicate block hash (only reachable while shrinking)")
+	}
+	used[hash] = true
+
+	var size int
+	sizeKind := rapid.SampledFrom([]string{"small", "small", "small", "small", "zero", "one", "max-1", "max", "max+1", "max+k", "2^31", "huge"}).Draw(t, "sizeKind")
+	if hash == c05EmptyHash && rapid.IntRange(0, 7).Draw(t, "emptyKeepsZero") != 0 {
+		sizeKind = "zero" // the real empty block; 1/8 keep the drawn size (an id no keepstore can produce, still an id)
+	}
+	switch sizeKind {
+	case "small":
+		size = rapid.IntRange(0, 64).Draw(t, "size")
+	case "zero":
+		size = 0
+	case "one":
+		size = 1
+	case "max-1":
+		size = 1<<26 - 1
+	case "max":
+		size = 1 << 26
+	case "max+1":
+		size = 1<<26 + 1
+	case "max+k":
+		size = 1<<26 + rapid.IntRange(2, 1<<26).Draw(t, "sizeOver")
+	case "2^31":
+		size = 1<<31 - 1 + rapid.IntRange(0, 2).Draw(t, "sizeAround31")
+	case "huge":
+		size = 1<<32 + rapid.IntRange(0, 1<<40).Draw(t, "sizeHuge")
+	}
+	return hash, size
+}
+
+// c05BlkidLabels measures the block-id regions for the evidence.
+func c05BlkidLabels(b *c05Block) (labels []string) {
+	if b.Hash == c05EmptyHash && b.Size == 0 {
+		labels = append(labels, "blkid:empty-block-d41d8cd9+0")
+	} else if b.Hash == c05EmptyHash {
+		labels = append(labels, "blkid:empty-hash-nonzero-size")
+	} else if b.Size == 0 {
+		labels = append(labels, "blkid:zero-size-other-hash")
+	}
+	run := func(s string, fromEnd bool) (byte, int) {
+		if fromEnd {
+			n := 0
+			for n < len(s) && s[len(s)-1-n] == s[len(s)-1] {
+				n++
+			}
+			return s[len(s)-1], n
+		}
+		n := 0
+		for n < len(s) && s[n] == s[0] {
+			n++
+		}
+		return s[0], n
+	}
+	if d, n := run(b.Hash, false); (d == '0' || d == 'f') && n < 32 {
+		labels = append(labels, "blkid:hash-starts-with-"+string(d))
+		if n >= 8 {
+			labels = append(labels, "blkid:hash-starts-with-run>=8-of-"+string(d))
+		}
+	}
+	if d, n := run(b.Hash, true); (d == '0' || d == 'f') && n < 32 {
+		labels = append(labels, "blkid:hash-ends-with-"+string(d))
+		if n >= 8 {
+			labels = append(labels, "blkid:hash-ends-with-run>=8-of-"+string(d))
+		}
+	}
+	if _, n := run(b.Hash, false); n == 32 {
+		labels = append(labels, "blkid:hash-single-digit-x32")
+	}
+	switch {
+	case b.Size == 0:
+	case b.Size == 1:
+		labels = append(labels, "blkid:size=1")
+	case b.Size < 1<<26-1:
+		labels = append(labels, "blkid:size-ordinary")
+	case b.Size == 1<<26-1:
+		labels = append(labels, "blkid:size=2^26-1")
+	case b.Size == 1<<26:
+		labels = append(labels, "blkid:size=2^26")
+	case b.Size < 1<<31-1:
+		labels = append(labels, "blkid:size>2^26")
+	default:
+		labels = append(labels, "blkid:size>=2^31-1")
+	}
+	return labels
 }
 
 type c05Fataler interface {
@@ -376,6 +505,22 @@ func TestVerifC05Balance(t *testing.T) {
 				if rep == 0 {
 					bl, nt := w.c05Labels(b, &out, f)
 					labels = append(labels, bl...)
+					idl := c05BlkidLabels(b)
+					labels = append(labels, idl...)
+					if b.Hash == c05EmptyHash && b.Size == 0 {
+						// what happened to the empty block, for the evidence
+						for _, l := range bl {
+							if l == "trash-emitted" || l == "pull-emitted" || l == "lost" || l == "underreplicated-class" {
+								labels = append(labels, "empty-block:"+l)
+							}
+						}
+						if nt {
+							labels = append(labels, "empty-block:nontrivial")
+						}
+						if len(out.Trashes) > 0 && stats.WantSample("empty-block-trash") {
+							stats.Sample("empty-block-trash", map[string]interface{}{"layout": cs.Srvs, "block": b, "output": out})
+						}
+					}
 					labels = append(labels, kl...)
 					nontrivial = nontrivial || nt
 					for _, l := range []string{"trash-emitted", "pull-emitted", "lost"} {
